@@ -1087,3 +1087,193 @@ Proof.
   intros cs T Hs. unfold C16_guard_ok. apply (hist_ok cs [] ginit None 0%nat T); auto.
   split; [apply ginv_init|]. split; [reflexivity|]. intros p [].
 Qed.
+
+(* ---------- concurrent calls: the order-free guard oracle ---------- *)
+
+From Coq Require Import Sorting.Permutation.
+
+Lemma overlap_sym : forall p q, overlap p q = overlap q p.
+Proof.
+  intros p q. unfold overlap.
+  destruct (go_out p =? 0), (go_out q =? 0), (go_start p <? go_ret q), (go_start q <? go_ret p); reflexivity.
+Qed.
+
+Lemma forallb_perm : forall A (f : A -> bool) l l', Permutation l l' -> forallb f l = forallb f l'.
+Proof.
+  intros A f l l' H. induction H; simpl; auto.
+  - rewrite IHPermutation; auto.
+  - destruct (f x), (f y); reflexivity.
+  - congruence.
+Qed.
+
+Lemma existsb_perm : forall A (f : A -> bool) l l', Permutation l l' -> existsb f l = existsb f l'.
+Proof.
+  intros A f l l' H. induction H; simpl; auto.
+  - rewrite IHPermutation; auto.
+  - destruct (f x), (f y); reflexivity.
+  - congruence.
+Qed.
+
+Lemma forallb_ext_all : forall A (f g : A -> bool) l, (forall x, f x = g x) -> forallb f l = forallb g l.
+Proof. intros A f g l H. induction l; simpl; auto. rewrite H, IHl. reflexivity. Qed.
+
+Lemma pairwise_apart_perm : forall l l', Permutation l l' -> pairwise_apart l = pairwise_apart l'.
+Proof.
+  intros l l' H. induction H; simpl; auto.
+  - rewrite IHPermutation. rewrite (forallb_perm _ _ _ _ H). reflexivity.
+  - rewrite (overlap_sym y x).
+    destruct (overlap x y), (forallb (fun q => negb (overlap y q)) l), (forallb (fun q => negb (overlap x q)) l);
+      simpl; reflexivity.
+  - congruence.
+Qed.
+
+(* the oracle does not depend on the order in which the calls are listed *)
+Lemma concurrent_ok_perm : forall l l', Permutation l l' -> C16_concurrent_ok l = C16_concurrent_ok l'.
+Proof.
+  intros l l' H. unfold C16_concurrent_ok.
+  rewrite (pairwise_apart_perm _ _ H).
+  rewrite (forallb_perm _ class_ok _ _ H).
+  rewrite (forallb_perm _ (refused_has_cause l) _ _ H).
+  rewrite (forallb_ext_all _ (refused_has_cause l) (refused_has_cause l') l').
+  - reflexivity.
+  - intros o. unfold refused_has_cause. destruct (go_lens o && (go_out o =? 2)); auto.
+    apply existsb_perm; auto.
+Qed.
+
+Lemma pairwise_apart_snoc : forall l o,
+  pairwise_apart (l ++ [o]) = pairwise_apart l && forallb (fun q => negb (overlap q o)) l.
+Proof.
+  induction l as [|x l IH]; intros o; simpl; auto.
+  rewrite forallb_app, IH. simpl.
+  destruct (forallb (fun q => negb (overlap x q)) l), (overlap x o), (pairwise_apart l),
+           (forallb (fun q => negb (overlap q o)) l); reflexivity.
+Qed.
+
+(* one call of a timed history: what the guard model answers and the state afterwards *)
+Lemma hist_model_step : forall c r earlier g act id T,
+  hinv earlier g act T -> T <= hc_start c -> 0 <= hc_dur c ->
+  exists o g' act',
+    hist_model g act id (c :: r) = o :: hist_model g' act' (S id) r /\
+    hinv (earlier ++ [o]) g' act' (hc_start c) /\
+    go_start o = hc_start c /\ class_ok o = true /\
+    (go_out o = 0 -> forall q, In q earlier -> go_out q = 0 -> go_ret q <= go_start o) /\
+    (go_out o = 2 -> exists p, In p earlier /\ go_out p = 0 /\ go_start p <= go_start o /\ go_start o <= go_ret p).
+Proof.
+  intros c r earlier g act id T Hinv HT Hdur. destruct Hinv as [Hg [Hact Hall]].
+  set (t := hc_start c) in *.
+  assert (Hret : exists g1 act1,
+      hist_retire g act c = (g1, act1) /\
+      ginv g1 /\
+      match act1 with
+      | Some (aid, rt) => g_active g1 = [aid] /\ t <= rt /\
+                          exists p, In p earlier /\ go_out p = 0 /\ go_start p <= t /\ go_ret p = rt
+      | None => g_active g1 = []
+      end /\
+      forall p, In p earlier -> go_out p = 0 ->
+        go_start p <= t /\ (go_ret p <= t \/ match act1 with Some (_, rt) => go_ret p = rt | None => False end)).
+  { destruct act as [[aid rt]|].
+    - destruct Hact as [Ha [p [Hp [Ho [Hst Hrt]]]]]. unfold hist_retire. fold t.
+      destruct ((rt <? t) || ((rt =? t) && hc_return_first c)) eqn:Hc.
+      + exists (fst (gstep g (GReturn aid))), None. split; [reflexivity|].
+        rewrite (guard_return g aid Ha Hg). simpl. split; [left; auto|]. split; auto.
+        intros q Hq Hqo. destruct (Hall q Hq Hqo) as [H1 [H2|H2]]; split; try lia; left; lia.
+      + exists g, (Some (aid, rt)). split; [reflexivity|]. split; auto.
+        apply orb_false_iff in Hc. destruct Hc as [Hc _]. apply Z.ltb_ge in Hc.
+        split.
+        * split; auto. split; auto. exists p. repeat split; auto; lia.
+        * intros q Hq Hqo. destruct (Hall q Hq Hqo) as [H1 [H2|H2]]; (split; [lia|]); [left; lia|right; auto].
+    - exists g, None. split; [reflexivity|]. split; auto. split; auto.
+      intros q Hq Hqo. destruct (Hall q Hq Hqo) as [H1 [H2|[]]]. split; [lia|left; lia]. }
+  destruct Hret as [g1 [act1 [Heq [Hg1 [Hact1 Hall1]]]]].
+  cbn [hist_model]. rewrite Heq. cbn [fst snd]. fold t.
+  destruct (hc_lens c) eqn:Hl.
+  - destruct act1 as [[aid rt]|].
+    + destruct Hact1 as [Ha [Hrt [p [Hp [Ho [Hst Hpr]]]]]].
+      rewrite (gcall_busy g1 id aid Ha Hg1). cbn [fst snd].
+      eexists; eexists; eexists. split; [reflexivity|].
+      split; [|split; [reflexivity|split; [reflexivity|split]]].
+      * split; [right; exists aid; auto|]. split.
+        -- split; auto. exists p. repeat split; auto. apply in_or_app; auto.
+        -- intros q Hq Hqo. apply in_app_or in Hq. destruct Hq as [Hq|[<-|[]]]; [|simpl in Hqo; discriminate].
+           apply Hall1; auto.
+      * simpl. discriminate.
+      * intros _. exists p. simpl. repeat split; auto; lia.
+    + rewrite (gcall_idle g1 id Hact1 Hg1). cbn [fst snd].
+      eexists; eexists; eexists. split; [reflexivity|].
+      split; [|split; [reflexivity|split; [reflexivity|split]]].
+      * split; [right; exists id; auto|]. split.
+        -- split; auto. eexists. split; [apply in_or_app; right; left; reflexivity|]. simpl. repeat split; lia.
+        -- intros q Hq Hqo. apply in_app_or in Hq. destruct Hq as [Hq|[<-|[]]].
+           ++ destruct (Hall1 q Hq Hqo) as [H1 [H2|[]]]. split; auto.
+           ++ simpl. split; [lia|right; auto].
+      * intros _ q Hq Hqo. simpl. destruct (Hall1 q Hq Hqo) as [_ [H|[]]]. auto.
+      * simpl. discriminate.
+  - rewrite gcall_len. cbn [fst snd].
+    eexists; eexists; eexists. split; [reflexivity|].
+    split; [|split; [reflexivity|split; [reflexivity|split]]].
+    + split; [apply ginv_eta; auto|]. split.
+      * destruct act1 as [[aid rt]|]; simpl; auto.
+        destruct Hact1 as [Ha [Hrt [p [Hp [Ho [Hst Hpr]]]]]]. split; auto.
+        exists p. repeat split; auto. apply in_or_app; auto.
+      * intros q Hq Hqo. apply in_app_or in Hq. destruct Hq as [Hq|[<-|[]]]; [|simpl in Hqo; discriminate].
+        apply Hall1; auto.
+    + simpl. discriminate.
+    + simpl. discriminate.
+Qed.
+
+Lemma hist_apart : forall cs earlier g act id T,
+  hinv earlier g act T -> starts_from T cs -> pairwise_apart earlier = true ->
+  pairwise_apart (earlier ++ hist_model g act id cs) = true.
+Proof.
+  induction cs as [|c r IH]; intros earlier g act id T Hinv Hs Hpa.
+  - simpl. rewrite app_nil_r. auto.
+  - destruct Hs as [HT [Hdur Hs]].
+    destruct (hist_model_step c r earlier g act id T Hinv HT Hdur) as [o [g' [act' [He [Hinv' [Hst [_ [H0 _]]]]]]]].
+    rewrite He. replace (earlier ++ o :: hist_model g' act' (S id) r) with ((earlier ++ [o]) ++ hist_model g' act' (S id) r)
+      by (rewrite <- app_assoc; reflexivity).
+    apply (IH _ _ _ _ (hc_start c)); auto.
+    rewrite pairwise_apart_snoc, Hpa. simpl. apply forallb_forall. intros q Hq.
+    apply negb_true_iff. unfold overlap.
+    destruct (go_out q =? 0) eqn:Hq0; simpl; auto. destruct (go_out o =? 0) eqn:Ho0; simpl; auto.
+    apply Z.eqb_eq in Hq0. apply Z.eqb_eq in Ho0. specialize (H0 Ho0 q Hq Hq0).
+    replace (go_start o <? go_ret q) with false by (symmetry; apply Z.ltb_ge; lia).
+    apply andb_false_r.
+Qed.
+
+Lemma hist_classes : forall cs earlier g act id T,
+  hinv earlier g act T -> starts_from T cs -> forall o, In o (hist_model g act id cs) -> class_ok o = true.
+Proof.
+  induction cs as [|c r IH]; intros earlier g act id T Hinv Hs o Hin; [contradiction|].
+  destruct Hs as [HT [Hdur Hs]].
+  destruct (hist_model_step c r earlier g act id T Hinv HT Hdur) as [o1 [g' [act' [He [Hinv' [_ [Hc _]]]]]]].
+  rewrite He in Hin. destruct Hin as [<-|Hin]; auto. eapply IH; eauto.
+Qed.
+
+Lemma hist_refused : forall cs earlier g act id T,
+  hinv earlier g act T -> starts_from T cs -> forall o, In o (hist_model g act id cs) -> go_out o = 2 ->
+  exists q, In q (earlier ++ hist_model g act id cs) /\ go_out q = 0 /\ go_start q <= go_start o /\ go_start o <= go_ret q.
+Proof.
+  induction cs as [|c r IH]; intros earlier g act id T Hinv Hs o Hin Ho; [contradiction|].
+  destruct Hs as [HT [Hdur Hs]].
+  destruct (hist_model_step c r earlier g act id T Hinv HT Hdur) as [o1 [g' [act' [He [Hinv' [_ [_ [_ H2]]]]]]]].
+  rewrite He in *. destruct Hin as [<-|Hin].
+  - destruct (H2 Ho) as [p [Hp Hrest]]. exists p. split; auto. apply in_or_app; auto.
+  - destruct (IH _ _ _ _ _ Hinv' Hs o Hin Ho) as [q [Hq Hrest]]. exists q. split; auto.
+    rewrite <- app_assoc in Hq. exact Hq.
+Qed.
+
+Lemma concurrent_oracle_model : forall cs T, starts_from T cs -> C16_concurrent_ok (hist_model ginit None 0 cs) = true.
+Proof.
+  intros cs T Hs.
+  assert (Hi : hinv [] ginit None T).
+  { split; [apply ginv_init|]. split; [reflexivity|]. intros p []. }
+  unfold C16_concurrent_ok. apply andb_true_iff. split; [apply andb_true_iff; split|].
+  - apply (hist_apart cs [] ginit None 0%nat T); auto.
+  - apply forallb_forall. intros o Hin. unfold refused_has_cause.
+    destruct (go_lens o && (go_out o =? 2)) eqn:Hc; auto.
+    apply andb_true_iff in Hc. destruct Hc as [_ Hc]. apply Z.eqb_eq in Hc.
+    destruct (hist_refused cs [] ginit None 0%nat T Hi Hs o Hin Hc) as [q [Hq [H0 [H1 H2]]]].
+    apply existsb_exists. exists q. split; auto. rewrite H0. simpl.
+    apply andb_true_iff. split; apply Z.leb_le; auto.
+  - apply forallb_forall. intros o Hin. eapply hist_classes; eauto.
+Qed.
